@@ -270,9 +270,13 @@ def check_order(rng, scratch):
     how = rng.choice(["as-built", "prepend", "append", "dump"])
     if how == "prepend" and len(repos) > 1:
         env = Environment(name="e", base_dir=scratch, repos=repos[1:])
+        for nm in names:
+            env.get_cluster(nm)          # names are resolved before the repository list changes: the answer must follow it
         env.prepend_repo(repos[0])
     elif how == "append" and len(repos) > 1:
         env = Environment(name="e", base_dir=scratch, repos=repos[:-1])
+        for nm in names:
+            env.get_cluster(nm)
         env.append_repo(repos[-1])
     elif how == "dump":
         env = Environment(env.to_dict())
